@@ -99,7 +99,7 @@ End Conv.
 Lemma bid_price_holds cf lk a s who amt0 wd twa s' a' r :
   good_cfg cf lk -> good_auction cf lk a -> 0 <= twa < 9223372036854775808 ->
   c_dc cf <= P18 -> c_dc cf <= a_price a -> c_dd cf <= P18 -> c_dd cf <= dp_of lk twa ->
-  place_bid cf lk a s who amt0 wd twa = Ok (s', a', r) ->
+  place_bid_core cf lk a s who amt0 wd twa = Ok (s', a', r) ->
   holds_C10_bid (c_dc cf) (c_dd cf) (a_price a) (dp_of lk twa) (a_coll a) (a_debt a) (a_bonus a)
                 (r_paid r) (r_recv r) (r_closed r) = true.
 Proof.
